@@ -227,3 +227,6 @@ func ExpireDeadline(ctx interface{}) bool { return false }
 
 // WakeSleepers lets time pass: goroutines inside time.Sleep wake up (symbolic run, sleep_env mode); natively it waits.
 func WakeSleepers() { time.Sleep(300 * time.Millisecond) }
+
+// EnvTicksEach lets every timer of the program fire n times (symbolic run); natively timers fire by themselves.
+func EnvTicksEach(n int) {}
